@@ -3,7 +3,10 @@ package c18
 import (
 	"bytes"
 	"encoding/hex"
+	"encoding/json"
 	"fmt"
+	"os"
+	"path/filepath"
 	"reflect"
 	"runtime/debug"
 	"sort"
@@ -46,7 +49,11 @@ type codec struct {
 	// lossy: decoding intentionally normalises (documented), so only rule 2 (canonical fixed
 	// point) is asserted, not the prefix rule.
 	lossy bool
-	gen   func(t *rapid.T) any // optional value generator
+	// ctxRules: the decoder additionally enforces rules about the message context (which
+	// extensions may appear together, in which order) that the encoder does not check; a value the
+	// decoder refuses is then not a defect, but a value it accepts must come back unchanged.
+	ctxRules bool
+	gen      func(t *rapid.T) any // optional value generator
 	// domain, if set, says whether a generated value lies in the wire-representable domain of the
 	// codec (field widths, known enum values); full value equality is asserted only there.
 	domain func(v any) bool
@@ -124,6 +131,77 @@ func genBytes(t *rapid.T, label string, lo, hi int) []byte {
 	return rapid.SliceOfN(rapid.Byte(), lo, hi).Draw(t, label)
 }
 
+func ctxRules(c *codec) *codec { c.ctxRules = true; return c }
+
+// genExtList draws a list of extension values for one message context from the payload codecs
+// registered under the given names (each at most once, generated order), plus optional
+// parameterless extensions and an unknown (raw) one.
+func genExtList(t *rapid.T, names []string, empties []extension.Value) []extension.Value {
+	var out []extension.Value
+	pick := rapid.Permutation(names).Draw(t, "extorder")
+	for _, n := range pick {
+		if rapid.IntRange(0, 2).Draw(t, "use") != 0 {
+			continue
+		}
+		cd := codecIdx[n]
+		if cd == nil || cd.gen == nil {
+			continue
+		}
+		v, ok := cd.gen(t).(extension.Value)
+		if !ok {
+			continue
+		}
+		enc, err := v.MarshalData()
+		if err != nil {
+			continue
+		}
+		// only extension values that survive their own payload codec unchanged (decoders that
+		// normalise, e.g. drop unknown enum members, would blur the message-level comparison)
+		v2 := cd.fresh()
+		if cd.unmarshal(v2, enc) != nil {
+			continue
+		}
+		normalize(reflect.ValueOf(v))
+		normalize(reflect.ValueOf(v2))
+		if !reflect.DeepEqual(v, v2) {
+			continue
+		}
+		if g, isGroups := v.(*extension.SupportedGroups); isGroups {
+			seen := map[uint16]bool{}
+			uniq := g.Groups[:0]
+			for _, x := range g.Groups {
+				if !seen[uint16(x)] {
+					seen[uint16(x)] = true
+					uniq = append(uniq, x)
+				}
+			}
+			g.Groups = uniq
+		}
+		out = append(out, v)
+	}
+	for _, e := range empties {
+		if rapid.IntRange(0, 2).Draw(t, "empty") == 0 {
+			out = append(out, e)
+		}
+	}
+	if rapid.IntRange(0, 3).Draw(t, "raw") == 0 {
+		out = append(out, extension.Raw{Type: extension.Type(0x7a00 + rapid.IntRange(0, 255).Draw(t, "rawtype")), Data: genBytes(t, "rawdata", 0, 12)}) //nolint:gosec
+	}
+	if len(out) > 1 && rapid.Bool().Draw(t, "shuffle") {
+		out = rapid.Permutation(out).Draw(t, "finalorder")
+	}
+
+	return out
+}
+
+func genRandom(t *rapid.T) handshake.Random {
+	var r handshake.Random
+	r.GMTUnixTime = time.Unix(int64(rapid.Uint32().Draw(t, "gmt")), 0)
+	copy(r.RandomBytes[:], genBytes(t, "rnd", 28, 28))
+
+	return r
+}
+
 func delim(c *codec) *codec { c.delimited = true; return c }
 
 func dom[T any](c *codec, f func(*T) bool) *codec {
@@ -131,6 +209,10 @@ func dom[T any](c *codec, f func(*T) bool) *codec {
 
 	return c
 }
+
+// lateShaped: generators that refer to other codecs' generators are installed after all codecs
+// are registered.
+var lateShaped []func()
 
 var (
 	codecs   []*codec
@@ -221,6 +303,38 @@ func init() {
 	}
 	reg(msg[handshake.MessageClientHello]("hs.ClientHello", nil))
 	reg(msg[handshake.MessageServerHello]("hs.ServerHello", nil))
+	lateShaped = append(lateShaped, func() {
+		chExts := []string{"ext.ServerNameOffer", "ext.SupportedGroups", "ext.SupportedPointFormats", "ext.SignatureAlgorithms", "ext.SRTPOffer", "ext.ALPNOffer",
+			"ext.ConnectionID", "ext.CertificateSignatureAlgorithms", "ext.RenegotiationInfo", "ext.OfferedVersions", "ext.ClientKeyShare", "ext.Cookie",
+			"ext.PSKKeyExchangeModes", "ext.OfferedPSKs", "ext.CertificateAuthorities"}
+		ctxRules(shaped(codecIdx["hs.ClientHello"], func(t *rapid.T) *handshake.MessageClientHello {
+			m := &handshake.MessageClientHello{Version: protocol.Version1_2, Random: genRandom(t), Cookie: genBytes(t, "cookie", 0, 40), SessionID: genBytes(t, "sid", 0, 32)}
+			n := rapid.IntRange(1, 8).Draw(t, "nsuites")
+			for i := 0; i < n; i++ {
+				m.CipherSuiteIDs = append(m.CipherSuiteIDs, rapid.SampledFrom([]uint16{0xc02b, 0xc02c, 0xcca9, 0xc0ac, 0x00a8, 0x1301, 0x1302, 0x00ff, 0x5600, 0x1a1a}).Draw(t, "suite"))
+			}
+			m.CompressionMethods = []*protocol.CompressionMethod{{}}
+			m.Extensions = genExtList(t, chExts, []extension.Value{&ext12.ExtendedMasterSecret{}, &extension.ReturnRoutabilityCheck{}, &ext13.PostHandshakeAuth{}})
+
+			return m
+		}))
+		shExts := []string{"ext.SupportedPointFormats", "ext.SRTPSelection", "ext.ALPNSelection", "ext.ConnectionID", "ext.RenegotiationInfo"}
+		ctxRules(shaped(codecIdx["hs.ServerHello"], func(t *rapid.T) *handshake.MessageServerHello {
+			su := rapid.SampledFrom([]uint16{0xc02b, 0xc02c, 0xcca9, 0x00a8}).Draw(t, "suite")
+			m := &handshake.MessageServerHello{Version: protocol.Version1_2, Random: genRandom(t), SessionID: genBytes(t, "sid", 0, 32), CipherSuiteID: &su, CompressionMethod: &protocol.CompressionMethod{}}
+			m.Extensions = genExtList(t, shExts, []extension.Value{&ext12.ExtendedMasterSecret{}, &extension.ReturnRoutabilityCheck{}, &extension.ServerNameAck{}})
+
+			return m
+		}))
+		eeExts := []string{"ext.SupportedGroups", "ext.SRTPSelection", "ext.ALPNSelection"}
+		ctxRules(shaped(codecIdx["hs.EncryptedExtensions"], func(t *rapid.T) *handshake.MessageEncryptedExtensions {
+			return &handshake.MessageEncryptedExtensions{Extensions: genExtList(t, eeExts, []extension.Value{&extension.ServerNameAck{}, &ext13.EarlyData{}})}
+		}))
+		crExts := []string{"ext.SignatureAlgorithms", "ext.SignatureAlgorithms", "ext.CertificateSignatureAlgorithms", "ext.CertificateAuthorities", "ext.OIDFilters"}
+		ctxRules(shaped(codecIdx["hs.CertificateRequest13"], func(t *rapid.T) *handshake.MessageCertificateRequest13 {
+			return &handshake.MessageCertificateRequest13{CertificateRequestContext: genBytes(t, "ctx", 0, 16), Extensions: genExtList(t, crExts[1:], nil)}
+		}))
+	})
 	reg(dom(withGen[handshake.MessageHelloVerifyRequest](msg[handshake.MessageHelloVerifyRequest]("hs.HelloVerifyRequest", nil)), func(*handshake.MessageHelloVerifyRequest) bool { return true }))
 	reg(dom(withGen[handshake.MessageCertificate](msg[handshake.MessageCertificate]("hs.Certificate", nil)), func(*handshake.MessageCertificate) bool { return true }))
 	reg(msg[handshake.MessageCertificate13]("hs.Certificate13", nil))
@@ -298,6 +412,9 @@ func init() {
 	regExt(withGen[ext13.MaxEarlyData](ext[ext13.MaxEarlyData]("ext.MaxEarlyData")), 42)
 	regExt(dom(withGen[ext13.Cookie](ext[ext13.Cookie]("ext.Cookie")), func(*ext13.Cookie) bool { return true }), 44)
 	reg(withGen[extension.Raw](ext[extension.Raw]("ext.Raw")))
+	for _, f := range lateShaped {
+		f()
+	}
 }
 
 // ---- rule engine -------------------------------------------------------------------------
@@ -640,9 +757,33 @@ func harvest() {
 	addSeed("ext.RetryKeyShare", []byte{0, 0x1d})
 	addSeed("ext.SelectedVersion", []byte{0xfe, 0xfc})
 	addSeed("ext.Raw", []byte{1, 2, 3})
+	// degenerate but once-accepted encodings found by the native fuzz targets (kept as seeds so that
+	// the quick tier's sweep re-judges them and their neighbours)
+	for _, kx := range []string{"ecdhe", "ecdhe-psk"} {
+		addSeed("hs.ServerKeyExchange/"+kx, []byte{3, 0, 0x1d, 0})             // ECDH parameters with an empty public key
+		addSeed("hs.ServerKeyExchange/"+kx, []byte{3, 0, 0x1d, 1, 0x41})       // one-byte key, anonymous
+		addSeed("hs.ServerKeyExchange/"+kx, []byte{3, 0, 0x1d, 0, 4, 3, 0, 0}) // empty key, empty signature
+	}
 }
 
-func ensureSeeds() { seedOnce.Do(harvest) }
+func ensureSeeds() {
+	seedOnce.Do(func() {
+		harvest()
+		// hand the harvested encodings to the native fuzz targets (which have no *testing.T and
+		// therefore no synctest bubble to harvest in) as their seed corpus
+		if dir := os.Getenv("VERIF_OUT"); dir != "" && os.Getenv("VERIF_REPLAY") == "" {
+			out := map[string][]string{}
+			for n, l := range seeds {
+				for _, b := range l {
+					out[n] = append(out[n], hex.EncodeToString(b))
+				}
+			}
+			if raw, err := json.Marshal(out); err == nil {
+				_ = os.WriteFile(filepath.Join(dir, "c18-seeds.json"), raw, 0o644)
+			}
+		}
+	})
+}
 
 // ---- properties --------------------------------------------------------------------------
 
@@ -843,6 +984,11 @@ func runValBytes(c ValCase, r *pbt.R) {
 
 		return
 	}
+	if err != nil && cd.ctxRules {
+		r.Class("refused-by-context-rules")
+
+		return
+	}
 	if err != nil {
 		r.Failf("C18|"+cd.name+"|own-encoding-rejected", "Marshal produced %x which Unmarshal rejects: %v", enc, err)
 
@@ -909,7 +1055,10 @@ func init() {
 						normalize(reflect.ValueOf(v))
 						normalize(reflect.ValueOf(v2))
 						if !reflect.DeepEqual(v, v2) {
-							return ValCase{Codec: cd.name, Enc: fmt.Sprintf("neq:%x|%+v|%+v", enc, v, v2)}
+							j1, _ := json.Marshal(v)
+							j2, _ := json.Marshal(v2)
+
+							return ValCase{Codec: cd.name, Enc: fmt.Sprintf("neq:%x|%+v|%+v|%s|%s", enc, v, v2, j1, j2)}
 						}
 					}
 
@@ -921,7 +1070,7 @@ func init() {
 				case len(c.Enc) > 6 && c.Enc[:6] == "panic:":
 					r.Failf("C18|"+cd.name+"|marshal-panics", "Marshal of a generated value panicked: %s", c.Enc)
 				case len(c.Enc) > 4 && c.Enc[:4] == "neq:":
-					r.Failf("C18|"+cd.name+"|roundtrip-changes-value", "Unmarshal(Marshal(v)) != v: %s", c.Enc[:min(len(c.Enc), 600)])
+					r.Failf("C18|"+cd.name+"|roundtrip-changes-value", "Unmarshal(Marshal(v)) != v: %s", c.Enc[:min(len(c.Enc), 2400)])
 				case c.Enc == "":
 					r.Class("marshal-rejects-generated-values")
 
